@@ -405,8 +405,12 @@ def main(argv=None):
         try:
             extra = mod.post_run(a.tier, seed)
         except Exception:
-            print("HARNESS-ERROR property=%s post_run: %s" % (pid, traceback.format_exc()))
-            return EXIT_HARNESS
+            if not tot["viols"]:
+                print("HARNESS-ERROR property=%s post_run: %s" % (pid, traceback.format_exc()))
+                return EXIT_HARNESS
+            # the main runs already hold violations: those are the result; the failed extra pass is noted, not allowed to hide them
+            print("NOTE property=%s post_run did not complete: %s" % (pid, traceback.format_exc().strip().splitlines()[-1][:200]))
+            extra = {}
         tot["viols"].extend(extra.get("viols", []))
         _merge(tot["probes"], extra.get("probes", {}))
 
